@@ -5,6 +5,8 @@ import json, os, subprocess, sys, tempfile, xml.etree.ElementTree as ET
 b = json.load(open("/root/.vp/BASELINE.json"))
 out = tempfile.mktemp(suffix=".xml", dir="/var/tmp")
 cmd = b["cmd"].replace("<file>", out)
+if os.environ.get("BASELINE_REPO"):  # run the same suite on a scratch checkout
+    cmd = cmd.replace("cd /repo", "cd " + os.environ["BASELINE_REPO"])
 env = dict(os.environ); env.pop("CYTHON_VERIF", None)
 subprocess.run(cmd, shell=True, env=env, stdout=subprocess.DEVNULL, stderr=subprocess.DEVNULL)
 passed = set()
